@@ -48,6 +48,9 @@ PROVS = {  # how the object a history starts from was obtained (constructor form
     "K": _COMMON + ("form1", "form1", "form2", "form3"),
 }
 
+BIG = [tuple(F(c) for c in v) for v in [(7, 0, 0), (-7, 0, 0), (0, 8, 0), (0, -8, 0), (0, 0, 7), (0, 0, -7), (6, -7, 0), (-6, 0, 7), (5, 6, -6)]]
+BOUND = 16  # a far move is skipped when it would take the object outside |x| <= 16
+
 IN_SUPPORT = {  # candidate kind -> container kinds for which `x in S` is supported
     "P": ("L", "H", "S", "PL", "G", "K"),
     "S": ("L", "H", "S", "PL", "G", "K"),
@@ -114,6 +117,19 @@ def derive_other(model, spec):
             return None
         return X.make_K([a, b, c, d])
     raise ValueError(ok)
+
+
+def far_vector(model, vi):
+    """a move farther than the object is wide (anything remembered about the old place is then elsewhere), directed
+    back towards the origin so that the object stays inside the coordinate range; None = skip"""
+    v = BIG[vi % len(BIG)]
+    ext = list(model[1]) if model[0] in ("G", "K") else [model[1]]
+    c = [sum(q[i] for q in ext) / len(ext) for i in range(3)]
+    if any(v[i] * c[i] > 0 for i in range(3)):
+        v = X.mul(F(-1), v)
+    if any(abs(c[i] + v[i]) > BOUND - 6 for i in range(3)):
+        return None
+    return v
 
 
 def _num_eq(x, y, tol=1e-9):
@@ -197,9 +213,13 @@ class Executor(object):
     def apply(self, step):
         name = step[0].rstrip("23")
         G = lib()
-        if name == "move":
+        if name in ("move", "farmove"):
             vi, follow = step[1], step[2]
-            v = VECS[vi % len(VECS)]
+            v = VECS[vi % len(VECS)] if name == "move" else BIG[vi % len(BIG)]
+            if name == "farmove":
+                v = far_vector(self.model, vi)
+                if v is None:
+                    return
             self.retire(self.ret)
             self.ret = self.guard("move", lambda: self.cur.move(B.vec(v, self.ct)))
             self.model = X.translate(self.model, v)
@@ -464,7 +484,7 @@ def account(case, ctx):
     q_after = 0
     steps = [(s[0].rstrip("23"),) + tuple(s[1:]) for s in steps]
     for s in steps:
-        if s[0] == "move":
+        if s[0] in ("move", "farmove"):
             moves += 1
         elif s[0] == "back":
             moves += 2
@@ -475,7 +495,7 @@ def account(case, ctx):
     ctx.cls(cls)
     ctx.cls("kind:" + init[0])
     for s in steps:
-        ctx.cls("step:" + s[0] + ("/follow" if s[0] == "move" and s[2] else ""))
+        ctx.cls("step:" + s[0] + ("/follow" if s[0] in ("move", "farmove") and s[2] else ""))
         if s[0] == "query":
             ctx.cls("query-other:" + s[1])
     if nt:
@@ -496,6 +516,10 @@ def admit(case, fail):
         s = (s[0].rstrip("23"),) + tuple(s[1:])
         if s[0] == "move":
             model = X.translate(model, VECS[s[1] % len(VECS)])
+        elif s[0] == "farmove":
+            fv = far_vector(model, s[1])
+            if fv is not None:
+                model = X.translate(model, fv)
         elif s[0] == "query":
             other = derive_other(model, s[1:6])
             if other is None:
@@ -521,7 +545,7 @@ def machine_for(kind):
         else:
             init = st.tuples(gen.free_flat(kind), st.sampled_from(("f", "f", "i")), prov)
         qargs = (
-            st.sampled_from(("P", "P", "L", "H", "S", "S", "PL", "PL", "G", "K")),
+            st.sampled_from(("P", "L", "H", "S", "PL", "G", "G", "K", "K") if kind in ("G", "K") else ("P", "P", "L", "H", "S", "S", "PL", "PL", "G", "K")),
             st.integers(0, 30), st.integers(0, 30), st.integers(0, 30), st.integers(0, 30),
         )
         # rules are chosen uniformly: moves and queries get two rules each so that deepcopy is 1/7
@@ -530,6 +554,7 @@ def machine_for(kind):
             "move2": (st.integers(0, len(VECS) - 1), st.booleans()),
             "deepcopy": (),
             "back": (st.integers(0, len(VECS) - 1),),
+            "farmove": (st.integers(0, len(BIG) - 1), st.booleans()),
             "query": qargs,
             "query2": qargs,
             "query3": qargs,
@@ -541,6 +566,6 @@ def machine_for(kind):
 
 def strata(tier):
     q = tier == "quick"
-    n = {"P": 200, "L": 200, "PL": 200, "S": 200, "H": 200, "G": 160, "K": 80}
+    n = {"P": 200, "L": 200, "PL": 200, "S": 200, "H": 200, "G": 200, "K": 130}
     mult = 1 if q else 25
     return [Stratum("history/" + k, "machine", machine_for(k), n[k] * mult) for k in KINDS]
